@@ -47,6 +47,8 @@ def gen_desc(verif_seed: int, i: int, tier: str = "quick") -> dict:
         if rng.random() < 0.5:
             cfg["argv"] += ["--report", rng.choice(["vcr", "har", "vcr,har"])]
     fault_free_schedule = sub == "clean" or rng.random() < 0.2
+    if sub != "clean":
+        fl = fl + gen.gen_stalls(rs, udesc, cfg)
     return {
         "property": PROPERTY,
         "profile": "c05",
@@ -71,7 +73,8 @@ def budget(tier: str) -> dict:
 
 RULE_TEXT = (
     "one case = one simulated uninterrupted run (CLI or engine API) with a seeded peer behaviour plan (sub-profile api), "
-    "exactly one internal fault at a pipeline stage (sub-profile internal), transport faults (network) or nothing (clean); "
+    "exactly one internal fault at a pipeline stage (sub-profile internal), transport faults (network) or nothing (clean); in a "
+    "third of the faulty runs additionally a slow node (a worker stalls 0.12-15 virtual seconds at a pipeline stage); "
     "non-trivial = at least one ground-truth problem actually fired (peer deviation delivered, internal fault raised, "
     "network error raised, engine thread died) or, for clean runs, >= 1 scenario finished on >= 2 threads; distinct = "
     "distinct (event digest, wire digest, context-switch digest)"
@@ -83,7 +86,7 @@ ASSUMPTIONS = [
     "a module-attribute patch of create_test; one per run",
     "pre-emption only at intercepted primitives and whitelisted repository lines",
 ]
-EXPECTED_PROBES = ["http500", "undocumented", "marker", "internal", "network_error", "q_timeout"]
+EXPECTED_PROBES = ["http500", "undocumented", "marker", "internal", "network_error", "q_timeout", "stall"]
 
 
 def fired_faults(desc: dict, res: dict) -> dict:
@@ -94,6 +97,8 @@ def fired_faults(desc: dict, res: dict) -> dict:
         out["internal:" + st["internal_fault"]["stage"]] = 1
     if st.get("network_errors"):
         out["network_error"] = st["network_errors"]
+    if st.get("stalls"):
+        out["stall"] = st["stalls"]
     if (res.get("sched") or {}).get("thread_deaths"):
         out["thread_died"] = len(res["sched"]["thread_deaths"])
     out["early_timer(tick with runnable threads)"] = sum(1 for d in res.get("deviations", []) if d[2] == "#tick")
@@ -119,6 +124,7 @@ class C05Profile(Profile):
 
         W._register_sim_marker()
         faults.install_internal_fault(ctx)
+        faults.install_stalls(ctx)
         extra = ctx.extra.get("extra_checks")
         if extra:
             ctx.config["checks"] = list(ctx.config["checks"]) + extra
@@ -173,6 +179,7 @@ class C05Profile(Profile):
             "ground_truth": sorted(f"{p}|{o}|{c}" for p, o, c in g),
             "network_errors": sum(len(v) for v in ne.values()),
             "internal_fault": ctx.facts.get("internal_fault"),
+            "stalls": len(ctx.facts.get("stalls") or []),
             "peer_fired": dict(ctx.peer.fired),
             "exit_code": ctx.exit_code,
         }
